@@ -119,6 +119,7 @@ struct PanicRec {
 }
 static PANICS: Mutex<Vec<PanicRec>> = Mutex::new(Vec::new());
 static BACKTRACES: AtomicUsize = AtomicUsize::new(0);
+static VIA: Mutex<Option<std::collections::HashMap<String, String>>> = Mutex::new(None);
 
 fn short_path(p: &str) -> String {
     if let Some(i) = p.find("/crates/") {
@@ -156,21 +157,32 @@ fn install_hook() {
             "?".to_string()
         };
         // first steel frame of the backtrace: tells which primitive a panic inside a dependency came from
-        let mut via = String::new();
-        if BACKTRACES.fetch_add(1, Ordering::SeqCst) < 400 {
-            let bt = std::backtrace::Backtrace::force_capture().to_string();
-            for line in bt.lines() {
-                let l = line.trim();
-                if let Some(i) = l.find(": ") {
-                    let sym = &l[i + 2..];
-                    if sym.starts_with("steel") || sym.starts_with("<steel") || sym.starts_with("im_lists")
-                        || sym.starts_with("<im_lists") || sym.starts_with("steel_parser") {
-                        via = sym.chars().take(160).collect();
-                        break;
+        // (symbolising a backtrace costs ~0.1 s: once per panic site)
+        let cached = VIA.lock().ok().and_then(|g| g.as_ref().and_then(|m| m.get(&loc).cloned()));
+        let via = match cached {
+            Some(v) => v,
+            None => {
+                let mut via = String::new();
+                if BACKTRACES.fetch_add(1, Ordering::SeqCst) < 400 {
+                    let bt = std::backtrace::Backtrace::force_capture().to_string();
+                    for line in bt.lines() {
+                        let l = line.trim();
+                        if let Some(i) = l.find(": ") {
+                            let sym = &l[i + 2..];
+                            if sym.starts_with("steel") || sym.starts_with("<steel") || sym.starts_with("im_lists")
+                                || sym.starts_with("<im_lists") || sym.starts_with("steel_parser") {
+                                via = sym.chars().take(160).collect();
+                                break;
+                            }
+                        }
                     }
                 }
+                if let Ok(mut g) = VIA.lock() {
+                    g.get_or_insert_with(Default::default).insert(loc.clone(), via.clone());
+                }
+                via
             }
-        }
+        };
         emit(&format!("K {} | {} | {}", loc, via, one_line(&msg)));
         if let Ok(mut g) = PANICS.lock() {
             g.push(PanicRec { loc, msg: one_line(&msg), via, thread: std::thread::current().id() });
@@ -534,6 +546,7 @@ fn run_builtins(jobs: Vec<String>, t0: Instant) {
         };
         engine.register_value("c07-f", val);
         emit(&format!("F {} {} {} {} {}", name, arity, mode, start, end));
+        let t_job = Instant::now();
         OKS.store(0, Ordering::SeqCst);
         ERRS.store(0, Ordering::SeqCst);
         let mut panics = 0usize;
@@ -596,9 +609,9 @@ fn run_builtins(jobs: Vec<String>, t0: Instant) {
         RUNNING.store(false, Ordering::SeqCst);
         let dd: Vec<&str> = d.split(' ').collect();
         emit(&format!(
-            "G {} {} {} ok={} err={} frames={} stack={} probe={}",
+            "G {} {} {} ok={} err={} frames={} stack={} probe={} ms={}",
             name, arity, mode, OKS.load(Ordering::SeqCst), ERRS.load(Ordering::SeqCst),
-            dd.first().unwrap_or(&"?"), dd.get(1).unwrap_or(&"?"), q
+            dd.first().unwrap_or(&"?"), dd.get(1).unwrap_or(&"?"), q, t_job.elapsed().as_millis()
         ));
         if q != "same" {
             engine = sweep_engine();
